@@ -360,6 +360,7 @@ def sgenVerdict (c : SgCase) (impl : Sexp) : Verdict :=
   | .list [.atom "crash"] | .list [.atom "hang"] =>
     .oracle "schema generation does not return (fatal stack overflow): not total"
   | .list (.atom "panic" :: _) => .oracle s!"schema generation panics: {impl}"
+  | .list (.atom "nondet" :: _) => .oracle s!"schema generation is not a function of the type: {impl}"
   | .list [.atom "err"] =>
     if canExpress then .oracle "an error for a type the documented mapping can express"
     else
